@@ -49,3 +49,84 @@ def observe(toks, names, cpp_table, clang):
                 cl = [list(pos)]
         out.append({"i": t["i"], "s": t["s"], "line": t["line"], "col": t["col"], "cv": cv, "cl": cl})
     return out
+
+
+def observe_by_line(toks, names, cfg, clang):
+    """The same observation for a dump whose token POSITIONS are not those of the source text (cppcheck --clang places
+    tokens at clang's range starts).  Tokens are identified by (line, spelling, how many tokens of that spelling come
+    before it on the line): the k-th token spelt n on line L of the dump is the k-th name token n of line L of the text.
+    A line where the two counts differ is left unobserved (cv = []).  The position a `variable` / `function` link leads
+    to is translated back to the position of the corresponding name token of the text (-1, -1 if it is none of them).
+    Returns (rows, number of tokens left unobserved)."""
+    by_line = {}
+    for t in cfg["tokens"]:
+        by_line.setdefault((t["linenr"], t["str"]), []).append(t)
+    mine = {}
+    for t in toks:
+        mine.setdefault((t["line"], names[(t["i"], t["s"])]), []).append(t)
+    pair = {}           # dump token id -> (line, col) of the token of the text
+    mapped = {}         # (i, s) -> [dump tokens]
+    for key, ts in mine.items():
+        ts = sorted(ts, key=lambda t: t["col"])
+        ds = by_line.get(key, [])
+        # `int x = 0;` is imported as one token x; the native front end splits it in two - accept a multiple
+        if ds and len(ds) == len(ts):
+            for t, d in zip(ts, ds):
+                pair[d["id"]] = (t["line"], t["col"])
+                mapped[(t["i"], t["s"])] = [d]
+    var_pos = {v["id"]: pair.get(v["nameToken"], (-1, -1)) for v in cfg["variables"]}
+    fun_pos = {f["id"]: pair.get(f["tokenDef"], (-1, -1)) for f in cfg["functions"]}
+    out = []
+    unobserved = 0
+    for t in toks:
+        pos = (t["line"], t["col"])
+        cv = []
+        for d in mapped.get((t["i"], t["s"]), []):
+            var = d["variable"] not in ("", "0")
+            fun = d["function"] not in ("", "0")
+            vl, vc = var_pos.get(d["variable"], (-1, -1)) if var else (0, 0)
+            fl, fc = fun_pos.get(d["function"], (-1, -1)) if fun else (0, 0)
+            cv.append({"varId": d["varId"], "var": 1 if var else 0, "vl": vl, "vc": vc, "fun": 1 if fun else 0, "fl": fl, "fc": fc})
+        if not cv:
+            unobserved += 1
+        cl = []
+        if pos in clang["refs"]:
+            cl = [list(p) for p in sorted(clang["refs"][pos])]
+        elif pos in clang["decls"]:
+            cl = [list(pos)]
+        out.append({"i": t["i"], "s": t["s"], "line": t["line"], "col": t["col"], "cv": cv, "cl": cl})
+    return out, unobserved
+
+
+def flat_program(clang):
+    """A program description in the item format of spec/ScopesText.tla for ARBITRARY source text, read off clang's AST:
+    one `decl` item per variable / parameter / field / function declaration, one `use` / `call` item per reference, in
+    text order; ids = clang's binding.  Used by C35 for programs that were not generated from Scopes.tla: the judge
+    (mode "refs") takes the expected binding from clang anyway, the items only give every token a kind.
+    Returns (prog, toks, names)."""
+    kinds = {"VarDecl": "local", "ParmVarDecl": "param", "FieldDecl": "field", "FunctionDecl": "fdecl", "CXXMethodDecl": "fdecl",
+             "InitCapture": "local"}
+    pos_list = sorted(set(clang["decls"]) | set(clang["refs"]))
+    ids = {}
+    for p in sorted(clang["decls"]):
+        ids[p] = len(ids) + 1
+    prog, toks, names = [], [], {}
+    for p in pos_list:
+        name = clang["names"].get(p, "")
+        if not name:
+            continue
+        if p in clang["decls"]:
+            k = kinds.get(clang["decls"][p], "local")
+            it = {"op": "fdecl" if k == "fdecl" else "decl", "nm": name, "id": ids[p], "form": "" if k == "fdecl" else ("local" if k == "param" else k),
+                  "q": [], "sub": []}
+        else:
+            targets = sorted(clang["refs"][p])
+            if len(targets) != 1 or targets[0] not in ids:
+                continue
+            isfun = clang["ref_kinds"].get(p) in ("FunctionDecl", "CXXMethodDecl")
+            it = {"op": "call" if isfun else "use", "nm": name, "id": ids[targets[0]], "form": "" if isfun else "plain", "q": [], "sub": []}
+        prog.append(it)
+        i = len(prog)
+        toks.append({"i": i, "s": 0, "line": p[0], "col": p[1]})
+        names[(i, 0)] = name
+    return prog, toks, names
